@@ -2,7 +2,7 @@
    Not part of the model: renaming of freshly drawn blank-node ids, outcome classes. *)
 From Coq Require Import List Bool Arith NArith ZArith.
 From Coq.Strings Require Import Byte.
-From BWExec Require Import Base Values Store Driver Exec Fault.
+From BWExec Require Import Base Values Store Driver Exec Fault Spec.
 Import ListNotations.
 Open Scope N_scope.
 
@@ -79,8 +79,15 @@ Definition stores_iso (old : list N) (base : N) (sm so : store) : bool :=
   | Some l => Nat.eqb (length newm) (length newo) && store_eqb (ren_store l sm) so
   end.
 
+(* blank ids written in the statement itself (a user may name an existing -- or no longer existing -- blank as /_<uuid>) *)
+Definition stmt_blanks (s : stmt) : list N :=
+  match s with
+  | SInsert _ ts | SDelete _ ts => flat_map triple_blanks ts
+  | SConstruct _ tmpl _ _ _ _ _ => flat_map cc_blanks tmpl
+  | _ => []
+  end.
 Definition old_blanks (prev : store) (mk : (nat -> N) -> stmt) : list N :=
-  store_blanks prev ++ flat_map row_blanks (stmt_rows (mk (fun _ => 0))).
+  store_blanks prev ++ flat_map row_blanks (stmt_rows (mk (fun _ => 0))) ++ stmt_blanks (mk (fun _ => 0)).
 Definition base_of (old : list N) (after : store) : N := 1 + N.max (max_list old) (max_list (store_blanks after)).
 
 (* frame only: same graph names, every graph that is not a target of the statement is exactly as before *)
